@@ -1,4 +1,4 @@
-import IoraModel.Lemmas.TpMain
+import IoraModel.Lemmas.TpWorkersStep
 /-!
 # C09 — what "a join loop has completed" means: the queue is empty, every worker has left (no task in hand), nobody is
 about to create a worker — and it stays so.  Together with the controller invariant: `stop()` (ok), `shutdown()` and
@@ -10,7 +10,7 @@ namespace Iora.ThreadPool
 structure Quiet (s : St) : Prop where
   tasks : s.sh.tasks = []
   thr : ∀ (t : Nat) (th : Thread), s.thr[t]? = some th →
-      atCreate th = false ∧ (isWorker th = true → goneW th = true) ∧ (∀ r, th ≠ .main .cC r)
+      atCreate th = false ∧ (isWorker th = true → goneW th = true)
 
 def QOk (s : St) : Prop := s.sh.quiesced = true → Quiet s
 
@@ -24,8 +24,9 @@ theorem qok_of_eff (cfg : Cfg) (s : St) (sh' : Shared) (t : Tid) (th th' : Threa
     (hinv : WInv s) (hmx : MutexOk s) (hq : QOk s) (hget : s.thr[t]? = some th) (hnf : isFinished th = false)
     (hen : locksM th = true → s.sh.owner = none)
     (hqs : s.sh.quiesced = true → s.sh.shutdown = true)
-    (hctor : ∀ r, th = .main .cL r → s.sh.quiesced = false)
-    (hcC : ∀ r', th' = .main .cC r' → ∃ r, th = .main .cL r)
+    (hcq : ∀ r, th = .main .cC r → s.sh.quiesced = false)
+    (hnotgt : ∀ r, th = .main .jL r → ∀ (j : Nat) (x : Thread) (w : Tid), s.thr[j]? = some x → targetOf x ≠ some w)
+    (hnr : restartTh th = false)
     (heff : StepEff cfg s.sh s.thr.length t th alt sh' th' post)
     (hts : ThreadsStep s.thr l t th' post)
     (hfresh : ∀ nt, post = .spawn nt → isFresh nt = true) :
@@ -39,34 +40,22 @@ theorem qok_of_eff (cfg : Cfg) (s : St) (sh' : Shared) (t : Tid) (th th' : Threa
     intro j y hy
     rcases hts.new j y hy with ⟨_, e2⟩ | ⟨_, x, hx, hwf⟩ | ⟨nt, hnt, _, e⟩
     · rw [e2]
-      refine ⟨hself.1, hself.2, ?_⟩
-      intro r' e
-      obtain ⟨r, e3⟩ := hcC r' e
-      have := hctor r e3
-      rw [hq0] at this; cases this
+      exact ⟨hself.1, hself.2⟩
     · have hc := wokeFrom_class hwf
       have Qx := Q.thr j x hx
-      refine ⟨by rw [hc.2.2.2.1]; exact Qx.1, by rw [hc.1, hc.2.2.1]; exact Qx.2.1, ?_⟩
-      intro r e
-      rcases hwf with e2 | ⟨ha, e2⟩
-      · rw [e2] at e; exact Qx.2.2 r e
-      · cases x with
-        | worker ws => cases ws <;> simp [isAsleep] at ha; simp [wake] at e2; rw [e2] at e; cases e
-        | main pc r0 => simp [isAsleep] at ha
-        | sub z => simp [isAsleep] at ha
+      exact ⟨by rw [hc.2.2.2.1]; exact Qx.1, by rw [hc.1, hc.2.2.1]; exact Qx.2⟩
     · have hc := fresh_class nt (hfresh nt hnt)
       rw [e]
-      refine ⟨hc.2.2.1, ?_, ?_⟩
-      · intro hw; rw [hnw nt hnt] at hw; cases hw
-      · intro r e2; have := hfresh nt hnt; rw [e2] at this; simp [isFresh] at this
-  have Qth : s.sh.quiesced = true → atCreate th = false ∧ (isWorker th = true → goneW th = true) ∧ (∀ r, th ≠ .main .cC r) :=
+      refine ⟨hc.2.2.1, ?_⟩
+      intro hw; rw [hnw nt hnt] at hw; cases hw
+  have Qth : s.sh.quiesced = true → atCreate th = false ∧ (isWorker th = true → goneW th = true) :=
     fun h => (hq h).thr t th hget
   intro hq'
   simp only [] at hq'
   cases heff with
   | quiet h hp hc hc' hw htail hgone htgt hdone =>
     have hq0 : s.sh.quiesced = true := by rw [← h.quiesced]; exact hq'
-    exact keep hq0 h.tasks (fun nt e => by obtain ⟨sc, e2⟩ := hp nt e; rw [e2]; rfl) ⟨hc', by rw [hw, hgone]; exact (Qth hq0).2.1⟩
+    exact keep hq0 h.tasks (fun nt e => (hp nt e).1) ⟨hc', by rw [hw, hgone]; exact (Qth hq0).2⟩
   | push cid hs ht h2 h3 h4 hp hc hc' hw htail hgone htgt hdone hl =>
     have hq0 : s.sh.quiesced = true := by rw [← h4]; exact hq'
     rw [hqs hq0] at hs; cases hs
@@ -74,22 +63,22 @@ theorem qok_of_eff (cfg : Cfg) (s : St) (sh' : Shared) (t : Tid) (th th' : Threa
     have hq0 : s.sh.quiesced = true := by rw [← h4]; exact hq'
     rcases hc with e | ⟨r, e⟩
     · rw [(Qth hq0).1] at e; cases e
-    · exact absurd e ((Qth hq0).2.2 r)
+    · have := hcq r e; rw [hq0] at this; cases this
   | exitIdle h hp hth he hs hw =>
     have hq0 : s.sh.quiesced = true := by rw [← h.quiesced]; exact hq'
-    have := goneW_tailW th ((Qth hq0).2.1 hth.1)
+    have := goneW_tailW th ((Qth hq0).2 hth.1)
     rw [hth.2.1] at this; cases this
   | exitShutdown h hp hth he hs hw =>
     have hq0 : s.sh.quiesced = true := by rw [← h.quiesced]; exact hq'
-    have := goneW_tailW th ((Qth hq0).2.1 hth.1)
+    have := goneW_tailW th ((Qth hq0).2 hth.1)
     rw [hth.2.1] at this; cases this
   | pop id ht h2 h3 h4 hp hth hw =>
     have hq0 : s.sh.quiesced = true := by rw [← h4]; exact hq'
-    have := goneW_tailW th ((Qth hq0).2.1 hth.1)
+    have := goneW_tailW th ((Qth hq0).2 hth.1)
     rw [hth.2.1] at this; cases this
   | selfErase hth hw h1 ht h3 h4 hp =>
     have hq0 : s.sh.quiesced = true := by rw [← h4]; exact hq'
-    have := (Qth hq0).2.1 (by rw [hth]; rfl)
+    have := (Qth hq0).2 (by rw [hth]; rfl)
     rw [hth] at this; simp [goneW] at this
   | finishW hth hw h hp =>
     have hq0 : s.sh.quiesced = true := by rw [← h.quiesced]; exact hq'
@@ -103,18 +92,15 @@ theorem qok_of_eff (cfg : Cfg) (s : St) (sh' : Shared) (t : Tid) (th th' : Threa
   | setShut r hth hw hs h1 ht h3 h4 hp =>
     have hq0 : s.sh.quiesced = true := by rw [← h4]; exact hq'
     rw [hqs hq0] at hs; cases hs
+  | restart hth => rw [hnr] at hth; cases hth
   | quiesce r hth hw he h1 ht h3 h4 hp =>
     by_cases hq0 : s.sh.quiesced = true
     · exact keep hq0 h1 (fun nt e => by rw [hp] at e; cases e) (by rw [hw]; exact ⟨rfl, fun e => by simp [isWorker] at e⟩)
     · -- the join loop has just found `_threads` empty while holding the mutex
       have hown : s.sh.owner = none := hen (by rw [hth]; rfl)
-      have ht0 : t = 0 := hinv.oneMain t th hget (by rw [hth]; rfl)
       have no_target : ∀ w, ¬ isTarget s.thr w := by
         intro w ⟨j, x, hx, htg⟩
-        have hj := hinv.oneMain j x hx (targetOf_isMain x w htg)
-        rw [hj, ← ht0, hget] at hx
-        have e2 : th = x := Option.some.inj hx
-        rw [← e2, hth] at htg; simp [targetOf] at htg
+        exact hnotgt r hth j x w hx htg
       have no_create : ∀ (j : Nat) (x : Thread), s.thr[j]? = some x → atCreate x = false := by
         intro j x hx
         cases hc : atCreate x with
@@ -135,9 +121,9 @@ theorem qok_of_eff (cfg : Cfg) (s : St) (sh' : Shared) (t : Tid) (th th' : Threa
       refine ⟨by simp only [h1]; exact tasks_empty, ?_⟩
       intro j y hy
       rcases hts.new j y hy with ⟨_, e2⟩ | ⟨ne, x, hx, hwf⟩ | ⟨nt, hnt, _, _⟩
-      · rw [e2, hw]; exact ⟨rfl, fun e => by simp [isWorker] at e, fun r e => by cases e⟩
+      · rw [e2, hw]; exact ⟨rfl, fun e => by simp [isWorker] at e⟩
       · have hc := wokeFrom_class hwf
-        refine ⟨by rw [hc.2.2.2.1]; exact no_create j x hx, ?_, ?_⟩
+        refine ⟨by rw [hc.2.2.2.1]; exact no_create j x hx, ?_⟩
         · rw [hc.1, hc.2.2.1]
           intro hwk
           by_cases hd : x = .worker .done
@@ -146,10 +132,6 @@ theorem qok_of_eff (cfg : Cfg) (s : St) (sh' : Shared) (t : Tid) (th th' : Threa
             · rw [he] at r1; cases r1
             · exact absurd r1 (no_target j)
             · rw [r1]; rfl
-        · intro r0 e
-          have hm : isMain x = true := by rw [← hc.2.2.2.2.2.1, e]; rfl
-          have := hinv.oneMain j x hx hm
-          exact ne (this.trans ht0.symm)
       · rw [hp] at hnt; cases hnt
 
 end Iora.ThreadPool
